@@ -39,7 +39,9 @@ class DefWire:
     def wire_points(self):
         start = [self.points[0]]
         rest = [p for p in self.points[1:] if not isinstance(p[0], str)]  # skip over vias
-        return start + rest if len(rest) > 0 else []
+        for p in rest:  # '*' (None) keeps the previous point's value
+            start.append((start[-1][0] if p[0] is None else p[0], start[-1][1] if p[1] is None else p[1]) + tuple(p[2:]))
+        return start if len(rest) > 0 else []
 
     @property
     def vias(self):
